@@ -196,6 +196,33 @@ def f_shape(tier="quick", seed=0):
                             specs.append({"name": "shape/%s/%s:%s/x=%d/lo=%s/ro=%d" % (name, pr, label, e_var, ",".join(lo), ri),
                                           "decl": decl, "exprs": exprs, "mapping": m, "extents": ext, "sizes": sizes,
                                           "tags": {"family": "shape", "template": name}})
+        # solver-symbolic partition sizes: the named size is a z3 Int in [1, extent + 1]
+        for pr in ranks:
+            for label, dirs, names in (("uSYM", ["uniform_shape(%s0)" % pr], [pr + "0"]),
+                                       ("uSYMuSYM", ["uniform_shape(%s1)" % pr, "uniform_shape(%s0)" % pr], [pr + "1", pr + "0"])):
+                if tier == "quick" and tmpl_i >= 3 and label != "uSYM":
+                    continue
+                lv = []
+                for r in ranks:
+                    lv += levels_of(r, len(dirs)) if r == pr else [r]
+                e_var = 5
+                ext = {r: (e_var if r == pr else (2 if r == ranks[0] or len(ranks) < 3 else 1)) for r in ranks}
+                for lo in sample_perms(lv, cap1, rnd):
+                    specs.append({"name": "shape/%s/%s:%s/x=%d/lo=%s" % (name, pr, label, e_var, ",".join(lo)),
+                                  "decl": decl, "exprs": exprs, "mapping": {"partitioning": {out: {pr: dirs}}, "loop-order": {out: lo}},
+                                  "extents": ext, "sizes": {}, "sym_sizes": {n: e_var + 1 for n in names},
+                                  "tags": {"family": "shape", "template": name, "symbolic_sizes": True}})
+        if tier == "thorough" and tmpl_i < 3 and len(ranks) >= 2:
+            p1, p2 = ranks[0], ranks[-1]
+            lv = []
+            for r in ranks:
+                lv += levels_of(r, 1) if r in (p1, p2) else [r]
+            for lo in sample_perms(lv, 40, rnd):
+                specs.append({"name": "shape/%s/%s:uSYM+%s:uSYM/lo=%s" % (name, p1, p2, ",".join(lo)), "decl": decl, "exprs": exprs,
+                              "mapping": {"partitioning": {out: {p1: ["uniform_shape(%s0)" % p1], p2: ["uniform_shape(%s0)" % p2]}},
+                                          "loop-order": {out: lo}},
+                              "extents": {r: (4 if r in (p1, p2) else 1) for r in ranks}, "sizes": {},
+                              "sym_sizes": {p1 + "0": 5, p2 + "0": 5}, "tags": {"family": "shape", "template": name, "symbolic_sizes": True}})
         # two partitioned ranks
         pairs = list(itertools.combinations(ranks, 2))
         for p1, p2 in pairs:
@@ -289,15 +316,19 @@ def f_occ(tier="quick", seed=0):
     specs = []
     cap = 4 if tier == "quick" else 40
 
-    def add(name, decl, exprs, part, groups, ext, sizes=None, ro=None, tag=""):
+    def add(name, decl, exprs, part, groups, ext, sizes=None, ro=None, tag="", sym=None):
         out = out_name(exprs[0])
         for lo in ordered_perms(groups, cap, rnd):
             m = {"partitioning": {out: part}, "loop-order": {out: lo}}
             if ro:
                 m["rank-order"] = ro
-            specs.append({"name": "occ/%s/%s/lo=%s%s" % (name, tag, ",".join(lo), "/ro" if ro else ""),
-                          "decl": decl, "exprs": exprs, "mapping": m, "extents": ext, "sizes": sizes or {},
-                          "tags": {"family": "occ", "template": name}})
+            sp = {"name": "occ/%s/%s/lo=%s%s" % (name, tag, ",".join(lo), "/ro" if ro else ""),
+                  "decl": decl, "exprs": exprs, "mapping": m, "extents": ext, "sizes": sizes or {},
+                  "tags": {"family": "occ", "template": name}}
+            if sym:
+                sp["sym_sizes"] = sym
+                sp["tags"]["symbolic_sizes"] = True
+            specs.append(sp)
 
     for name, decl, exprs in OCC_TEMPLATES:
         ranks = ranks_of(exprs[0])
@@ -315,6 +346,15 @@ def f_occ(tier="quick", seed=0):
                 # named size
                 add(name, decl, exprs, {pr: ["uniform_occupancy(%s.%s0)" % (T, pr)]},
                     others + [levels_of(pr, 1)], ext, sizes={pr + "0": 2}, tag="%s:o%sS" % (pr, T))
+                # solver-symbolic occupancy sizes (z3 Int in [1, extent + 1]), one and two levels
+                add(name, decl, exprs, {pr: ["uniform_occupancy(%s.%s0)" % (T, pr)]},
+                    others + [levels_of(pr, 1)], ext, tag="%s:o%sSYM" % (pr, T), sym={pr + "0": ext[pr] + 1})
+                add(name, decl, exprs, {pr: ["uniform_occupancy(%s.%s1)" % (T, pr), "uniform_occupancy(%s.%s0)" % (hs[-1], pr)]},
+                    others + [levels_of(pr, 2)], ext, tag="%s:o%sSYMo%sSYM" % (pr, T, hs[-1]),
+                    sym={pr + "1": ext[pr] + 1, pr + "0": ext[pr] + 1})
+                add(name, decl, exprs, {pr: ["uniform_shape(%s1)" % pr, "uniform_occupancy(%s.%s0)" % (T, pr)]},
+                    others + [levels_of(pr, 2)], ext, tag="%s:uSYMo%sSYM" % (pr, T),
+                    sym={pr + "1": ext[pr] + 1, pr + "0": ext[pr] + 1})
                 # beneath a shape split
                 add(name, decl, exprs, {pr: ["uniform_shape(2)", "uniform_occupancy(%s.1)" % T]},
                     others + [levels_of(pr, 2)], ext, tag="%s:u2o%s1" % (pr, T))
@@ -358,6 +398,12 @@ def f_occ(tier="quick", seed=0):
             add(name, decl, exprs, {"K": ["uniform_shape(2)"], "(%s, %s)" % (a, b): ["flatten()"],
                                     fl: ["uniform_occupancy(A.%d)" % s]},
                 [["K1", fl + "1", fl + "0"], ["N"]], ext, tag="sigma(%s,%s)+oA%d" % (a, b, s))
+    for a, b in (("M", "K0"), ("K0", "M")):
+        fl = a + b
+        add(name, decl, exprs, {"K": ["uniform_shape(2)"], "(%s, %s)" % (a, b): ["flatten()"], fl: ["uniform_occupancy(A.S)"]},
+            [["K1", fl + "1", fl + "0"], ["N"]], {"K": 4, "M": 2, "N": 2}, tag="sigma(%s,%s)+oASYM" % (a, b), sym={"S": 5})
+    add(name, decl, exprs, {"(K, M)": ["flatten()"], "KM": ["uniform_occupancy(A.S)"]},
+        [["KM1", "KM0"], ["N"]], {"K": 3, "M": 2, "N": 2}, tag="flat(K,M)+oASYM", sym={"S": 7})
     # flatten of B's ranks, elementwise flatten with both tensors holding both ranks
     add(name, decl, exprs, {"(K, N)": ["flatten()"], "KN": ["uniform_occupancy(B.2)"]},
         [["KN1", "KN0"], ["M"]], {"K": 3, "M": 2, "N": 2}, tag="flat(K,N)+oB2")
